@@ -1643,6 +1643,17 @@ def state_census(repo, modules=None):
                 t = src(d)
                 if "cache" in t.lower() or "memo" in t.lower():
                     out.add(("memoising decorator", own, t))
+            # a local that is just another name for a shared container
+            # (x = self.table; x.update(...)) mutates the container
+            aliases = {}
+            for a_ in ast.walk(fn):
+                if isinstance(a_, ast.Assign) and len(a_.targets) == 1 and \
+                        isinstance(a_.targets[0], ast.Name) and (
+                            isinstance(a_.value, ast.Name) and
+                            a_.value.id in modvars or
+                            isinstance(a_.value, ast.Attribute) and
+                            a_.value.attr in classvars):
+                    aliases[a_.targets[0].id] = a_.value
             for n in ast.walk(fn):
                 if isinstance(n, ast.Global):
                     for nm in n.names:
@@ -1654,6 +1665,8 @@ def state_census(repo, modules=None):
                 elif isinstance(n, ast.Call) and isinstance(
                         n.func, ast.Attribute) and n.func.attr in MUTATORS:
                     tgt = n.func.value
+                if isinstance(tgt, ast.Name) and tgt.id in aliases:
+                    tgt = aliases[tgt.id]
                 if tgt is not None:
                     if isinstance(tgt, ast.Name) and tgt.id in modvars:
                         out.add(("module-level container mutated", own,
@@ -1820,11 +1833,32 @@ def state_rule(repo, rep, rule=None):
 #    every site (the namespace-qualified attribute tables)
 
 
+def fold_in_func(repo, f, node):
+    """constant value of ``node`` inside function ``f``: like Repo.fold, with
+    ``self.<name>`` / ``cls.<name>`` read from the class (its MRO) when the
+    class binds the name to a constant"""
+    from .core import clone_ast
+    ci = getattr(f, "cls", None)
+    if ci is not None and any(
+            isinstance(x, ast.Attribute) and isinstance(x.value, ast.Name)
+            and x.value.id in ("self", "cls") for x in ast.walk(node)):
+        class Sub(ast.NodeTransformer):
+            def visit_Attribute(self, n):
+                if isinstance(n.value, ast.Name) and n.value.id in (
+                        "self", "cls"):
+                    v, owner = repo.class_attr(ci, n.attr)
+                    if v is not None:
+                        return clone_ast(v)
+                return self.generic_visit(n)
+        node = Sub().visit(clone_ast(node))
+    return repo.fold(node, f.module)
+
+
 def _fragment_placeholders(repo, f, arg):
     import re as _re
     import textwrap
     try:
-        text = repo.fold(arg, f.module)
+        text = fold_in_func(repo, f, arg)
     except Exception:
         text = None
     if isinstance(text, str):
